@@ -20,3 +20,43 @@ Print Assumptions C12_instance_c12_ack_before_register.
 Theorem C12_instance_same_id_two_publishers : Proto.Script.run_broker [262144] Proto.ProofsInstances.h_c12_same_id_two_publishers = Proto.ProofsInstances.o_c12_same_id_two_publishers.
 Proof. exact Proto.ProofsInstances.inst_c12_same_id_two_publishers. Qed.
 Print Assumptions C12_instance_same_id_two_publishers.
+
+From Client Require Props ProofsComplete.
+
+(* every PUBREC, known identifier or not, is answered by exactly a PUBREL with the same identifier *)
+Theorem C12_pubrec_pubrel : Client.Props.C12_pubrec_pubrel.
+Proof. exact Client.ProofsComplete.pubrec_pubrel. Qed.
+Print Assumptions C12_pubrec_pubrel.
+
+(* in every reachable client state the registrations of the waiting requests are pairwise distinct and were all handed out: a released request left its queue, so its completion cannot fire again *)
+Theorem C12_registrations_unique : Client.Props.C12_registrations_unique.
+Proof. exact Client.ProofsComplete.registrations_unique. Qed.
+Print Assumptions C12_registrations_unique.
+
+(* a released request triggers at most one completion call, that of its registration, and changes no queue *)
+Theorem C12_complete_once : Client.Props.C12_complete_once.
+Proof. exact Client.ProofsComplete.complete_once. Qed.
+Print Assumptions C12_complete_once.
+
+(* an acknowledgement completes exactly the entries the FIFO specification releases (the longest terminally acknowledged prefix), in order, and removes them *)
+Theorem C12_ack_completes_released : Client.ProofsComplete.C12_ack_completes_released_corrected.
+Proof. exact Client.ProofsComplete.ack_completes_released_corrected. Qed.
+Print Assumptions C12_ack_completes_released.
+
+(* (without the side condition on the unused ping cell of the queue the statement is false of states no history reaches) *)
+Theorem C12_ack_completes_released_unreachable_refuted : ~ Client.Props.C12_ack_completes_released.
+Proof. exact Client.ProofsComplete.ack_completes_released_counterexample. Qed.
+Print Assumptions C12_ack_completes_released_unreachable_refuted.
+
+(* ... and in every reachable state the side condition holds *)
+Theorem C12_ack_completes_released_reach : forall bufsize cl which atype pid raw cl1 o,
+  Client.Props.creach bufsize cl ->
+  (which = 1 \/ which = 2 \/ which = 3 \/ which = 4) ->
+  Client.Model.ack_and_complete cl which atype pid raw = (cl1, o) ->
+  let q1 := fst (Ackq.Spec.s_ack (Client.Model.get_q cl which) atype pid raw) in
+  let '(d, rest) := Ackq.Spec.release (Ackq.Spec.s_list q1) in
+  Ackq.Spec.s_list (Client.Model.get_q cl1 which) = rest /\
+  (forall w, (w = 1 \/ w = 2 \/ w = 3 \/ w = 4) -> w <> which -> Client.Model.get_q cl1 w = Client.Model.get_q cl w) /\
+  o = snd (Client.Model.complete_all (Client.Model.upd_q cl which (fst (Ackq.Spec.s_acked q1))) d).
+Proof. exact Client.ProofsComplete.ack_completes_released_reach. Qed.
+Print Assumptions C12_ack_completes_released_reach.
